@@ -33,7 +33,7 @@ RULE = ("one evaluation = one simulated history (10-22 ops + injected in-place m
 REAL_STUB = "real: all yastn code, numpy/scipy; real lru_cache in arm A. stub: LRU container (arm B), LAPACK primary-driver failure injected through a scipy proxy."
 ASSUMPTIONS = ["snapshot = struct, slices, hfs, mfs, trans, dtype and data bytes of every live tensor; deep canonical form of dict arguments",
                "sharing is measured with numpy.shares_memory on the 1-D data arrays"]
-WALL_CAP = 300
+WALL_CAP = 1200
 CHUNK = 8
 
 WEIGHTS = dict(e1.DEFAULT_WEIGHTS)
